@@ -13,7 +13,7 @@ out = {
            "baseline_off_cmd": "cd /repo && GOFLAGS=-mod=mod GOPROXY=off go test -vet=off -count=1 -timeout 25m ./...",
            "source_commits": [], "add_only": True},
  "engines": [{"name": "gosym", "path": "/verif/engine", "serves_properties": sorted(claimed),
-              "kind_free_text": "bounded symbolic executor over the go/ssa form of /repo's working tree (rebuilt every run, harness injected by overlay); path conditions and assertion obligations decided by z3 4.8.12 over bit-vectors; counterexamples replayed natively with go test -overlay"}],
+              "kind_free_text": "bounded symbolic executor over the go/ssa form of /repo's working tree (rebuilt every run, harness injected by overlay); path conditions and assertion obligations decided by z3 5.1.0 (z3-new; z3 4.8.12 as fallback) over bit-vectors; counterexamples replayed natively with go test -overlay"}],
  "checks": [],
  "not_applicable": [],
  "notes": checks.get("notes", ""),
